@@ -13,7 +13,13 @@ PROBES_DEC = ['[C][#C]', '[C][=C][Branch1][C][F][=O]', '[N][=N][#N]', '[S][=S][=
               '[C][I-1][C]', '[O-1][C][C]', '[B-1][=C][=C][=C]', '[C][C][C][Ring1][Ring1][#C]', '[Al][C][C][C][C]',
               '[C+1][=C][=C]', '[N+1][#C][C]', '[Xe][F][F]']
 PROBES_ENC = ['CC(C)(C)C', 'C[PH4]', 'N(C)(C)(C)C', 'c1ccccc1', 'C[Al](C)C', 'O=S(=O)(=O)=O', '[NH4+]', 'C[I-]C',
-              'FC(F)(F)(F)F', 'C[N+](C)(C)(C)C']
+              'FC(F)(F)(F)F', 'C[N+](C)(C)(C)C', 'C1CC1C2CC2', 'C%12CC%12O', 'CCCC1', 'N[C@](F)(Cl)C1CC1', 'C[C@]12CCCC2CCC1',
+              'F/C=C/C=C\\F', 'C2CCC1CC12']
+# inputs the translators reject (malformed, unclosed rings/branches, unknown elements, unkekulizable, invalid symbols):
+# a rejected call must leave nothing behind either
+REJECTS_ENC = ['C1CCC', 'CC2CC[Xx]', 'C%12CC(', 'C(', 'C)C', 'C1CC2', 'c1cccc1', 'C=#C', 'CC(C', 'C%1', '1CC1', 'C((C))',
+               'C[C@@](F)(Cl)(Br)(I)C1', 'c1ccccc1c', '[CH3', 'C..C', '(C)C', 'C1CC1(', 'C/=C', 'C12CC']
+REJECTS_DEC = ['[C][', '[Xx][C]', '[C][Branch1', '][C]', '[C][C@@@]', '[CH99]', '[C][=Ring1][Zz]', '[Ring1][', '[C]..[[C]']
 CUSTOM = [
     {'?': 3, 'C': 6, 'N': 1, 'O': 0, 'P': 7, 'S': 1, 'I-1': 0, 'Si': 2},
     {'?': 8, 'C': 2, 'N': 5, 'O': 3, 'Cl': 3, 'Xe': 2, 'Fe+2': 1, 'Al': 1},
@@ -132,6 +138,8 @@ def ops_palette():
     ops.append(('alphabet_and_mutate', None))
     ops.append(('decode_probes', None))
     ops.append(('encode_probes', None))
+    ops.append(('rejected_calls', 0))
+    ops.append(('rejected_calls', 1))
     return ops
 
 
@@ -204,6 +212,21 @@ def apply_op(op, model, log):
                     sf.decoder(p, compatible=(len(p) % 2 == 0), attribute=(len(p) % 3 == 0))
             except sf.DecoderError:
                 pass
+    elif kind == 'rejected_calls':
+        for p in (REJECTS_ENC if arg == 0 else REJECTS_ENC[::-1]):
+            for kw in ({}, {'strict': False}, {'attribute': True}):
+                try:
+                    sf.encoder(p, **kw)
+                except Exception:
+                    pass
+        for p in REJECTS_DEC:
+            for kw in ({}, {'attribute': True}, {'compatible': True}):
+                try:
+                    with warnings.catch_warnings():
+                        warnings.simplefilter('ignore')
+                        sf.decoder(p, **kw)
+                except Exception:
+                    pass
     elif kind == 'encode_probes':
         for p in PROBES_ENC[:6]:
             for strict in (True, False):
